@@ -101,7 +101,8 @@ pub fn gen_codec(r: &mut Rng) -> Vec<Tree> {
     ops.push(l(vec![n(121u8), n(0u8)]));
     for _ in 0..8 {
         let p = gen_packet_tree(r);
-        let seq = boundary_u64(r);
+        // sequence numbers of every length class (0..8 bytes), at the edges and inside each class
+        let seq = if r.chance(1, 3) { r.next() >> r.below(64) } else { boundary_u64(r) };
         let cap = *r.pick(&[1400u64, 1400, 1400, 1078, 1077, 40, 17, 0]);
         let with_key = r.chance(9, 10);
         ops.push(l(vec![n(124u8), p.clone(), n(protocol), n(seq), optb(if with_key { Some(&key) } else { None }), n(cap)]));
